@@ -267,7 +267,16 @@ tagged_module!(TDistr, "distribution", DistributionMsg, Empty, Empty);
 tagged_module!(TIbc, "ibc", IbcMsg, IbcQuery, Empty);
 tagged_module!(TGov, "gov", GovMsg, Empty, Empty);
 impl Bank for TBank {}
-impl Staking for TStaking {}
+thread_local! {
+    /// (tag of the staking component, block it was handed) for every end-of-block call
+    static QUEUE_CALLS: RefCell<Vec<(u8, BlockInfo)>> = RefCell::new(vec![]);
+}
+impl Staking for TStaking {
+    fn process_queue<ExecC: CustomMsg, QueryC: CustomQuery>(&self, _: &dyn Api, _: &mut dyn Storage, _: &dyn CosmosRouter<ExecC = ExecC, QueryC = QueryC>, block: &BlockInfo) -> AnyResult<AppResponse> {
+        QUEUE_CALLS.with(|q| q.borrow_mut().push((self.0, block.clone())));
+        Ok(AppResponse::default())
+    }
+}
 impl Distribution for TDistr {}
 impl Ibc for TIbc {}
 impl Gov for TGov {}
@@ -736,6 +745,39 @@ pub fn run_c20(ctx: &Ctx) -> i32 {
     }
     evals += transitions * ENTRIES.len() as u64;
     states += seen.len() as u64;
+    // (iii) the built App drives the staking component it was given with the block it shows: after
+    // every set_block / update_block, in both builder orders, the supplied component was called once,
+    // with the block that block_info() reports
+    for order in 0..2 {
+        for seq in 0..4u8 {
+            let b = AppBuilder::new();
+            let mut app = if order == 0 { b.with_block(tblock(1)).with_staking(TStaking(7)).build(|_, _, _| {}) } else { b.with_staking(TStaking(7)).with_block(tblock(1)).build(|_, _, _| {}) };
+            for stepno in 0..2u8 {
+                let use_set = (seq >> stepno) & 1 == 0;
+                QUEUE_CALLS.with(|q| q.borrow_mut().clear());
+                if use_set {
+                    let mut nb = tblock(2 + stepno);
+                    nb.height += 1000 * (stepno as u64 + 1);
+                    app.set_block(nb);
+                } else {
+                    app.update_block(|b| {
+                        b.height += 7;
+                        b.time = b.time.plus_seconds(11);
+                    });
+                }
+                let calls = QUEUE_CALLS.with(|q| std::mem::take(&mut *q.borrow_mut()));
+                let shown = app.block_info();
+                states += 1;
+                evals += 1;
+                if calls.len() != 1 || calls[0].0 != 7 || calls[0].1 != shown {
+                    ctx.violation(
+                        &format!("c20:staking-component-driven-with-another-block:{}", if use_set { "set_block" } else { "update_block" }),
+                        json!({"engine": "builders", "kind": "end-of-block call", "builder_order": if order == 0 { "with_block, with_staking" } else { "with_staking, with_block" }, "step": stepno, "calls": calls.iter().map(|c| format!("component {} with {:?}", c.0, c.1)).collect::<Vec<_>>(), "block_info": format!("{:?}", shown)}),
+                    );
+                }
+            }
+        }
+    }
     let coverage = json!({
         "states": states,
         "transitions": transitions + nchains + chains_len as u64,
